@@ -18,7 +18,7 @@ import vlib
 PID = "C09"
 FILES = ["theories/Properties/C09.v", "theories/Examples/C09Examples.v",
          "theories/Properties/C09Reachable.v", "theories/Examples/C09ReachableExamples.v",
-         "theories/Examples/C09Wirings.v"]
+         "theories/Examples/C09Wirings.v", "theories/Properties/C09Extra.v", "theories/Examples/C09PrefixExamples.v"]
 UNFIXABLE = {"KUConflict", "KNil", "KFkDangling"}
 ORDER_KEY = "C09:fix-order-unique-on-nullable-fk"
 # a fix run that removes an entry from a bucket which was already written in the same transaction skips the entry behind
@@ -464,7 +464,7 @@ def main(argv):
         merged = os.path.join(c.work, "corpus.txt")
         ncorpus = 0
         with open(merged, "w") as f:
-            for name in ("c09.txt", "c09_order.txt", "c09_w3.txt", "c09_dirty.txt"):
+            for name in ("c09.txt", "c09_order.txt", "c09_w3.txt", "c09_w5.txt", "c09_dirty.txt"):
                 cp = os.path.join(vlib.VERIF, "corpus", "store", name)
                 if os.path.exists(cp):
                     text = open(cp).read()
@@ -567,6 +567,11 @@ def main(argv):
                      "through the open transaction, a POST check-only phase after the commit must repeat the verdict of the re-check. Fourth stream: wirings C09xu / "
                      "C09xf (Extended and plain child store with non-nullable unique indexes / fk indexes / fk constraints on fields of their own; ten ids; the "
                      "first, middle or last third of the id range created without child data), corruptions of child-bucket fields included. "
+                     "Fifth strengthening (design/C09.md section 11): half of the histories of every stream draw ids and values from universes with PREFIX CHAINS "
+                     "(ids a / a1 / a10, b / b1; values v / v1 / v10, v2 / v20, values that equal ids), and for every index kind the candidates include entries "
+                     "whose key or id is a proper prefix or an extension (s+'0', s+NUL) of a legitimate neighbour: extra / wrong-target entries (*-near-key, "
+                     "*-near-id: unique index, set-index key and id, back-reference, fk field re-pointed to a living or missing neighbour id, link) and missing "
+                     "entries whose extension stays in the bucket (*-near-stays); 15 fixed corpus cases (corpus/store/c09_w5.txt). "
                      "Non-trivial: at least one corruption or at least one report; distinct by case text.")
     c.cov["report_kinds_seen"] = dict(kinds_seen)
     ks = sorted(set((0, len(cases) // 2, max(0, len(cases) - 1))))
